@@ -82,6 +82,8 @@ def obligations(name, model, enc):
         src = user_src(t)
         if src is not None:
             def g(V, t=t, src=src):
+                if np.shape(V.out["out"][t]) != np.shape(V.out["out"][src]):
+                    return [], z3.BoolVal(False)
                 return [], all_eq(V.out["out"][t], V.out["out"][src])
             obs.append(Obligation(f"[{name}] user-supplied {t[7:]} node is forwarded unchanged", [enc], g, signature=f"{name}:user:{t}"))
         else:
